@@ -12,7 +12,7 @@ if [ "$1" = "-e" ]; then
   sed -i -E "$2" "$W/$3" || exit 2
   shift 3
 else
-  git -C "$W" apply "$(realpath "$1")" || { echo "patch failed"; exit 2; }
+  git -C "$W" apply "$(realpath "$1")" 2>/dev/null || git -C "$W" apply -3 "$(realpath "$1")" || { echo "patch failed"; exit 2; }
   shift
 fi
 [ "$1" = "--" ] && shift
